@@ -198,6 +198,22 @@ def classify(msg, text):
     return None
 
 
+def vtimezone_extremes():
+    """VTIMEZONE definitions at the edges of what date arithmetic can represent (fresh TZID each, so that nothing is served from a cache):
+    observances in year 1 / 9999 with offsets that push the onset out of range, huge offsets, RRULEs far in the future, empty pieces"""
+    out = []
+    k = 0
+    for dtstart in ("00010101T000000", "00010101T010000", "99991231T235959", "99991231T000000", "19700101T000000"):
+        for off_from, off_to in (("+0200", "+0100"), ("-0200", "-0100"), ("+2359", "-2359"), ("-2359", "+2359"), ("+0000", "+0000")):
+            for extra in ("", "RRULE:FREQ=YEARLY;BYMONTH=3;BYDAY=-1SU\r\n", "RDATE:99991231T235959\r\n", "RDATE:00010101T000000\r\n"):
+                k += 1
+                tzid = f"Verif/Extreme-{k}"
+                out.append(f"BEGIN:VCALENDAR\r\nBEGIN:VTIMEZONE\r\nTZID:{tzid}\r\nBEGIN:STANDARD\r\nDTSTART:{dtstart}\r\nTZOFFSETFROM:{off_from}\r\n"
+                           f"TZOFFSETTO:{off_to}\r\n{extra}END:STANDARD\r\nEND:VTIMEZONE\r\nBEGIN:VEVENT\r\nDTSTART;TZID={tzid}:20240601T100000\r\n"
+                           f"END:VEVENT\r\nEND:VCALENDAR\r\n")
+    return out
+
+
 def run(b, tier, seed, findings, known_seen):
     import icalendar
     rnd = random.Random(seed)
@@ -233,6 +249,13 @@ def run(b, tier, seed, findings, known_seen):
             for bad, msg in isolation_cases():
                 cases += 1
                 fails.setdefault(("iso", bad), {"witness": {"isolation": bad, "provider": prov}, "detail": f"[{prov}] line {bad!r}: {msg}"})
+            for text in vtimezone_extremes():
+                cases += 1
+                text = text.replace("Verif/Extreme-", f"Verif/{prov}-{seed}-Extreme-")
+                msg = one(text, False, False, True)
+                if msg and len(fails) < 18:
+                    fails.setdefault((prov, "vtz", msg[:40]), {"witness": {"text": text, "multiple": False, "bytes": False, "walk": True, "provider": prov},
+                                                             "detail": f"[{prov}] {msg} on {text[:160]!r}"})
         finally:
             icalendar.timezone.tzp.use_default()
     b.cases = cases
